@@ -59,6 +59,8 @@ var toolSources = map[string][2]string{
 	"inblock":     {"##!> assemble\na(\n##!<\n", "##!> assemble\n  a(\n##!<\n"},
 	"ininclude":   {"##!> include bad\n", "##!> include bad\n"},
 	"badflagU":    {"##!+ U\ns\n", "##!+ U\ns\n"},
+	// a flags line in an include file that has neither prefix nor suffix
+	"flaginc": {"##!>  include flagged\n", "##!> include flagged\n"},
 	// upper case in a class under flag i: `format --check' objects, everything else accepts it
 	"upperi": {"##!+i\n [Ff]oo\n", "##!+ i\n[Ff]oo\n"},
 	// the same exclude file applied to two include files that define {{v}} differently
@@ -114,6 +116,7 @@ func (e *toolEnv) concrete(t *toolTree) Tree {
 	tr := Tree{
 		"crs/regex-assembly/include/words.ra":   fmtHeader + "w1\nw2\n",
 		"crs/regex-assembly/include/bad.ra":     fmtHeader + "a(\n",
+		"crs/regex-assembly/include/flagged.ra": fmtHeader + "##!+ i\nx\n",
 		"crs/regex-assembly/include/incA.ra":    fmtHeader + "##!> define v ka\n{{v}}\nqa\n",
 		"crs/regex-assembly/include/incB.ra":    fmtHeader + "##!> define v kb\n{{v}}\nqb\n",
 		"crs/regex-assembly/exclude/xshared.ra": fmtHeader + "{{v}}\n",
@@ -219,7 +222,7 @@ func checkToolchain(c *Ctx, prop string) error {
 	if err != nil {
 		return err
 	}
-	writeTree(cal, Tree{"regex-assembly/include/words.ra": fmtHeader + "w1\nw2\n", "regex-assembly/include/bad.ra": fmtHeader + "a(\n",
+	writeTree(cal, Tree{"regex-assembly/include/words.ra": fmtHeader + "w1\nw2\n", "regex-assembly/include/bad.ra": fmtHeader + "a(\n", "regex-assembly/include/flagged.ra": fmtHeader + "##!+ i\nx\n",
 		"regex-assembly/include/incA.ra": fmtHeader + "##!> define v ka\n{{v}}\nqa\n", "regex-assembly/include/incB.ra": fmtHeader + "##!> define v kb\n{{v}}\nqb\n",
 		"regex-assembly/exclude/xshared.ra": fmtHeader + "{{v}}\n"})
 	for _, s := range []string{"store", "define", "refonly", "flagsprefix", "plain", "incl", "exA", "exB", "incpairs", "upperi"} {
@@ -347,7 +350,7 @@ func checkToolchain(c *Ctx, prop string) error {
 	c.Cov["per_command"] = perCmd
 	c.Cov["cli_executions"] = cli
 	c.Cov["exhaustive"] = false
-	c.Cov["rule"] = "TLC explores every transition (tree before, command, tree after, exit, components written) of Toolchain.tla from 144 (quick) / 378 (thorough) initial trees (8 / 21 assignments of 22 program shapes incl. one per fault class of C16 at top level / in a block / in an include to 3 assembly files - shared stash names, definitions, flags/prefix only in one file, include-only, a failing file in the middle, a chain offset - x formatted or not x rule present or missing x one / no / two rules files) closed under one environment edit, for 21 commands incl. version, completion and the single-target renumber-tests (test file, parked look-alike, no match; with and without --check), every --all variant and github mode, and checks FrameOK, LoudOK, RoundTripOK and AllIsSingles on each; a stratified sample of the transitions is executed on a concrete tree with decoy files (other extensions, look-alike names, nested directories, a sibling directory outside the root): exit status, abstract tree after (read back from the bytes) and the set of changed paths must be what the model says. " +
+	c.Cov["rule"] = "TLC explores every transition (tree before, command, tree after, exit, components written) of Toolchain.tla from 162 (quick) / 414 (thorough) initial trees (9 / 23 assignments of 23 program shapes incl. one per fault class of C16 at top level / in a block / in an include to 3 assembly files - shared stash names, definitions, flags/prefix only in one file, include-only, a failing file in the middle, a chain offset - x formatted or not x rule present or missing x one / no / two rules files) closed under one environment edit, for 21 commands incl. version, completion and the single-target renumber-tests (test file, parked look-alike, no match; with and without --check), every --all variant and github mode, and checks FrameOK, LoudOK, RoundTripOK and AllIsSingles on each; a stratified sample of the transitions is executed on a concrete tree with decoy files (other extensions, look-alike names, nested directories, a sibling directory outside the root): exit status, abstract tree after (read back from the bytes) and the set of changed paths must be what the model says. " +
 		map[string]string{"C08": "C08 sample: --all commands and the single commands they must equal; non-trivial = an --all command on a tree with >= 2 assembly files.",
 			"C15": "C15 sample: all commands; every transition is non-trivial (the whole tree incl. decoys is snapshotted).",
 			"C16": "C16 sample: transitions the model ends with exit 1 and every generate; non-trivial = the model says the command must fail."}[prop]
